@@ -164,7 +164,7 @@ def invalid_env_step(rng, tr: Tracker):
 def gen_session(rng: random.Random, spec, *, p_invalid=0.0, p_query=0.0, p_reset=0.0,
                 p_obs=0.0, p_snapshot=1.0, start_observers=(), max_events=60,
                 snapshot_around_invalid=False, stop_early=0.15, obs_kinds=(0, 1, 2, 3, 4, 5),
-                env_mode=False):
+                env_mode=False, p_cog=0.2):
     """Returns (events, stats)."""
     tr = Tracker(spec)
     events = []
@@ -194,6 +194,7 @@ def gen_session(rng: random.Random, spec, *, p_invalid=0.0, p_query=0.0, p_reset
             iv = invalid_env_step(rng, tr) if env_mode else invalid_request(rng, tr)
             if iv is not None:
                 ev, kd = iv
+                ev = list(ev) + ([[]] if len(ev) == 3 and ev[0] == 0 else []) + [1]   # trailing 1 = meant to be rejected
                 if snapshot_around_invalid:
                     events.append([7])
                 events.append(ev)
@@ -218,16 +219,27 @@ def gen_session(rng: random.Random, spec, *, p_invalid=0.0, p_query=0.0, p_reset
         r = rng.random()
         if r < p_obs:
             c = rng.random()
-            if c < 0.4:
+            if c < 0.35:
                 k = rng.choice(obs_kinds)
                 events.append([3, k])
                 construct(k)
-            elif c < 0.6:
+            elif c < 0.35 + p_cog:
                 k = rng.choice(obs_kinds)
-                events.append([6, k])
-                if not any(kinds[i] == k for i in subs):
-                    construct(k)
-            elif c < 0.8 and kinds:
+                if kinds and rng.random() < 0.6:
+                    if rng.random() < 0.7:
+                        k = kinds[rng.randrange(len(kinds))]
+                    same = [i for i in range(len(kinds)) if kinds[i] == k]
+                    pool = same if same and rng.random() < 0.7 else list(range(len(kinds)))
+                    allowed = sorted(rng.sample(pool, rng.randint(1, min(3, len(pool)))))
+                    events.append([6, k, [allowed]])
+                    if not any(kinds[i] == k and i in allowed for i in subs):
+                        kinds.append(k)
+                        subs.append(len(kinds) - 1)
+                else:
+                    events.append([6, k, []])
+                    if not any(kinds[i] == k for i in subs):
+                        construct(k)
+            elif c < 0.35 + p_cog + (0.65 - p_cog) / 2 and kinds:
                 i = rng.randrange(len(kinds))
                 events.append([4, i])
                 if i in subs:
